@@ -393,7 +393,7 @@ def inline_new_helpers(crates, table):
         for c, h in allfns:
             if h['name'] in ref_names or h['kind'].lower() == 'closure' or '{closure' in h['name']:
                 continue
-            if h.get('exported') or h.get('trait_item') or h.get('derived') or not h.get('blocks'):
+            if h.get('trait_item') or h.get('derived') or not h.get('blocks') or h.get('_spliced'):
                 continue
             if h['kind'] not in ('Fn', 'AssocFn'):
                 continue
@@ -431,7 +431,10 @@ def inline_new_helpers(crates, table):
             for c2, f in allfns:
                 if f.get('parent_fn') == key:
                     f['parent_fn'] = first
-            c['fns'] = [f for f in c['fns'] if f is not h]
+            if h.get('exported'):
+                h['_spliced'] = True   # part of the public surface: stays a function, its callers see through it
+            else:
+                c['fns'] = [f for f in c['fns'] if f is not h]
             done.append((h['name'], sorted(set(callers))))
             progress = True
             break
